@@ -39,7 +39,7 @@ import (
 
 	"verif/harness/corex"
 	"verif/harness/hx"
-	"verif/harness/sessx"
+	sessx "verif/harness/scriptx"
 )
 
 func flag(b bool) string {
